@@ -54,4 +54,22 @@ def check (args res : List String) : Except String (List String × String) := do
   let acc := match model with | .ok _ => "1" | .error _ => "0"
   pure (f, s!"accepted={acc} goodnames={if good then 1 else 0} loaders={L}")
 
+/-- `parse2`: two spellings of ONE description (C13: "nullary rules written with or without parentheses", free layout; the model is
+invariant: `C13_nullary_parens`, `C13_layout_insensitive`).  When the model reads both texts as the same description the implementation must
+too – a difference is a failing input of the property itself; each result is also compared with the model's. -/
+def check2 (args res : List String) : Except String (List String × String) := do
+  let t0 := unhex ((args[0]?.getD "").toList)
+  let t1 := unhex ((args[1]?.getD "").toList)
+  let P0 ← match kv res "P0" with | some p => pure p | none => throw "missing P0"
+  let P1 ← match kv res "P1" with | some p => pure p | none => throw "missing P1"
+  let show_ (m : Except String Desc) : String := match m with | .ok d => (("OK;" ++ dump d).splitOn ";ser=")[0]! | .error _ => "ERR"
+  let m0 := show_ (parseC t0)
+  let m1 := show_ (parseC t1)
+  if m0 != m1 then throw "precondition: the model reads the two spellings differently (generator)"
+  let mut f : List String := []
+  if P0 != P1 then f := f ++ [s!"violation two spellings of one description parse differently: canonical {P0.take 160} respelled {P1.take 160}"]
+  if P0 != m0 then f := f ++ [s!"mismatch parsed description differs from the model: impl={P0.take 160} model={m0.take 160}"]
+  if P1 != m1 && P0 == P1 then f := f ++ [s!"mismatch parsed description (respelled text) differs from the model: impl={P1.take 160} model={m1.take 160}"]
+  pure (f, s!"accepted={if m0 == "ERR" then 0 else 1} respelled=1")
+
 end ParseChk
